@@ -324,6 +324,13 @@ pub fn batch(engine: &dyn Engine, a: &BatchArgs) -> i32 {
                 if let Some((i, seed)) = started {
                     // the worker died inside run i without reporting: a crash of the host process
                     agg.evaluations += 1;
+                    // the class of the workload (if the engine has classes) makes the signature specific
+                    let class = {
+                        let mut rng = crate::prng::Rng::new(engine::workload_seed(seed));
+                        let w = engine.generate(&mut rng, &a.tier);
+                        w["class"].as_str().map(|c| format!(" [workload class {}]", c)).unwrap_or_default()
+                    };
+                    let st = format!("{}{}", st, class);
                     let v = Violation::new("crash", format!("worker process died: {}", st));
                     let stderr_tail: String = String::from_utf8_lossy(&output.stderr)
                         .lines()
@@ -411,6 +418,19 @@ pub fn batch(engine: &dyn Engine, a: &BatchArgs) -> i32 {
     }
 
     // ---- evidence
+    // faults injected by the workload itself (not through the tape) are counted by probes
+    let mut fired = agg.fired.clone();
+    for kind in &info.fault_kinds {
+        let name = kind.split_whitespace().next().unwrap_or("");
+        if let Some(n) = agg.counters.get(name) {
+            *fired.entry(name.to_string()).or_insert(0) += *n;
+        }
+    }
+    for (k, n) in &agg.counters {
+        if k.starts_with("fault_") && !fired.contains_key(k) {
+            fired.insert(k.clone(), *n);
+        }
+    }
     let wall = t0.elapsed().as_secs_f64();
     let evaluations = agg.evaluations.max(1);
     let evidence = json!({
@@ -433,7 +453,7 @@ pub fn batch(engine: &dyn Engine, a: &BatchArgs) -> i32 {
             "distinct_workloads": agg.shapes.len(),
             "distinct_interleavings": agg.traces.len(),
             "distinct_interleavings_measure": "distinct hash of (workload, full decision tape)",
-            "faults_fired": agg.fired,
+            "faults_fired": fired,
             "fault_kinds": info.fault_kinds,
             "probes": agg.counters,
             "components_real": info.real,
@@ -560,7 +580,11 @@ impl<'a> Tester<'a> {
         } else if stdout.lines().any(|l| l == "RESULT ok") {
             return None;
         } else {
-            crash_signature(self.prop, &status_text(&status))
+            let class = cand["workload"]["class"]
+                .as_str()
+                .map(|c| format!(" [workload class {}]", c))
+                .unwrap_or_default();
+            crash_signature(self.prop, &format!("{}{}", status_text(&status), class))
         };
         if sig != self.target {
             return None;
